@@ -751,12 +751,15 @@ static void thread_finish(Thread* t)
     unpark(&g_thr[next]);
 }
 
+static volatile int g_pool_exit = 0;
+
 static void* pool_main(void* arg)
 {
     Thread* t = (Thread*)arg;
     tl_self = t;
     for (;;) {
         park(t);
+        if (__atomic_load_n(&g_pool_exit, __ATOMIC_ACQUIRE)) return nullptr;
         // a body has been assigned and we were scheduled
         hmix(((uint64_t)t->id << 56) ^ ((uint64_t)E_START << 48));
         if (g_trace) tracef("%6llu T%d start\n", (unsigned long long)g_step, t->id);
@@ -814,6 +817,19 @@ static void ensure_pool(int n)
     }
 }
 
+/// parameter fresh=1: every run gets brand-new OS threads, so that thread_local state of
+/// the code under test (a per-thread cache, say) cannot leak from one run of a pooled
+/// worker into the next — a run is then a pure function of its seed even for such code
+static void recycle_pool()
+{
+    if (g_pool == 0) return;
+    __atomic_store_n(&g_pool_exit, 1, __ATOMIC_RELEASE);
+    for (int i = 0; i < g_pool; i++) unpark(&g_thr[i]);
+    for (int i = 0; i < g_pool; i++) pthread_join(g_thr[i].pt, nullptr);
+    __atomic_store_n(&g_pool_exit, 0, __ATOMIC_RELEASE);
+    g_pool = 0;
+}
+
 static void thread_reset(Thread* t)
 {
     int id = t->id;
@@ -837,6 +853,7 @@ static void run_common(const gsim::Workload* w)
     g_wl = w;
     g_opnames = w->opnames;
     g_nopnames = w->nops;
+    if (gsim::param_int("fresh", 0)) recycle_pool();
     ensure_pool(MAXT);
     for (int i = 0; i < MAXT; i++) thread_reset(&g_thr[i]);
     g_nthreads = 1;
